@@ -79,4 +79,182 @@ PROPS = {
     },
 }
 
+
+ENGINE_PINS = ["PinChecks/PcBody_enf.v", "PinChecks/PcBody_model.v", "PinChecks/PcBody_internal.v", "PinChecks/PcBody_adapters.v", "PinChecks/PcBody_fmgmtapi.v", "PinChecks/PcBody_frbacapi.v", "PinChecks/PcRoleGraph.v", "PinChecks/PcLiterals.v", "PinChecks/PcBody_fmacros.v"]
+ENGINE_NOTE = ("trusted: Coq kernel, extraction, harness; modelled not verified: hashlink LinkedHashSet/LinkedHashMap order (insert moves an existing entry "
+               "to the back), petgraph adjacency order, rhai on the matcher fragment; adapters are modelled at the level of parsed lines (the CSV text level is "
+               "C16/C09-text); every modelled function body is pinned by hash to the source it was aligned with")
+
+PROPS.update({
+    "C06": {
+        "coq": "Properties/C06.v",
+        "pinchecks": ["PinChecks/PcBody_enf.v", "PinChecks/PcBody_fmap.v", "PinChecks/PcLiterals.v", "PinChecks/PcEffector.v", "PinChecks/PcBody_fconvert.v",
+                      "PinChecks/PcBody_fmacros.v", "PinChecks/PcRoleGraph.v"],
+        "gen": "c06",
+        "partial": "never-hang / never-panic of the regex crate and of rhai is NOT a theorem: it is watchdog + catch_unwind evidence from the differential run; "
+                   "the theorems cover the model's enforcement loop and built-ins",
+        "level_text": "Coq theorems over the enforcement model: c06_no_panic (for ANY request list - arity, value types, contents - enforce never yields Panic unless "
+                      "the model's effect text is unsupported), c06_arity (wrong arity = request error when enabled), c06_error_never_grants / "
+                      "c06_decision_has_clean_prefix (a reached malformed rule or failing matcher gives Err, never a grant), c06_matchers_defined; PARTIAL: "
+                      "termination and panic-freedom of the real regex/rhai engines are exercised by the string-corpus run under catch_unwind and a watchdog, "
+                      "and every function on the request path is pinned by body hash (a new unwrap/index changes the hash)",
+        "level_note": "trusted: Coq kernel, extraction, harness; partial by nature: run-time totality of third-party engines is not modelled",
+        "explanation": "theorems c06_*; corpus of all strings of length <= 3 over a 13-symbol alphabet with 1-4 byte characters as matcher keys and request values",
+        "assumptions": ["policy-side patterns come from the documented grammar (a pattern that rewrites to an invalid regex panics in regex_match: policy side)",
+                        "a disabled enforcer grants everything before any check (by design): arity theorem is for enabled enforcers"],
+    },
+    "C15": {
+        "coq": "Properties/C15.v",
+        "pinchecks": ["PinChecks/PcBody_fmap.v", "PinChecks/PcLiterals.v"],
+        "gen": "c15",
+        "level_text": "Coq theorems: c15_key_match / c15_key_get* characterise keyMatch/keyGet for ALL byte strings; for every pattern of the documented grammar "
+                      "(unbounded length) and EVERY key, the text-rewriting pipeline of keyMatch2/3/4/5, keyGet2/3 reads back as the compiled atom list "
+                      "(c15_rewrite_*), the anchored matcher on it decides exactly the segment-wise specification and captures exactly the named "
+                      "segments (c15_amatch_decides/_captures), hence c15_km2..km5, c15_kg2, c15_kg3; the spec itself is tied to an inductive "
+                      "segs_match relation. The model of the regex class is tied to the regex crate by the differential run through the real functions",
+        "level_note": "trusted: Coq kernel, extraction, harness; modelled not verified: the regex crate on the class {literal bytes, [^/]+ with/without (lazy) capture, "
+                      ".*} (anchored, leftmost-first); patterns outside the grammar (regex metacharacters in literals) are outside the theorems",
+        "explanation": "theorems c15_*; all grammar patterns <= 3(4) segments x all keys <= 4(5) segments + random; predicate: implementation = segment-wise spec",
+        "assumptions": ["literal segments and names over [A-Za-z0-9_-]; '*' only as last segment"],
+    },
+    "C10": {
+        "coq": "Properties/C10.v",
+        "pinchecks": ENGINE_PINS,
+        "gen": "c10",
+        "partial": "durability below the system-call layer (fsync, page cache, power loss) is outside any executable model: c10_save_atomic is about the sequence "
+                   "of file-system calls the adapter issues, assuming rename is atomic",
+        "level_text": "Coq theorems over the engine: c10_rejected_is_identity/_any_history (a refused or failed adapter call leaves model, role graph, log and every "
+                      "query unchanged, at any point of any history), c10_failed_load_keeps_policy (all failure points of load/load_filtered), c10_clear_failed, "
+                      "c10_save_failed, c10_late_error (what a late role-link error leaves), c10_save_atomic (every cut point of create-tmp/append/rename leaves "
+                      "old or new content) with c10_old_save_refuted for the pre-repair protocol; known finding: two-call helpers (c10_two_call_second_fails). "
+                      "Correspondence: scripted adapter at every position x 4 failure kinds; file-size-limit child process for the save clause",
+        "level_note": ENGINE_NOTE + "; rename atomicity is assumed (named in Model/FileSave.v)",
+        "explanation": "theorems c10_*; fault enumeration through a scripted adapter; RLIMIT_FSIZE crash points for FileAdapter::save_policy",
+        "assumptions": ["rename(2) replaces the destination atomically", "the scripted adapter is a user-side Adapter implementation wrapping MemoryAdapter"],
+    },
+    "C14": {
+        "coq": "Properties/C14.v",
+        "pinchecks": ENGINE_PINS + ["PinChecks/PcBody_femitter.v"],
+        "gen": "c14",
+        "level_text": "Coq theorems over the engine with a watcher: NotifyInv (exactly one callback while enabled) for every reachable state, c14_delivery_single "
+                      "(Ok true = exactly one event with the exact payload; Ok false / adapter error = none; late error = delivered), c14_filtered_payload, "
+                      "c14_delivery_clear/_save, c14_replica_eq (folding the log into an ideal ordered-set replica equals the primary's p and g lists, in order, "
+                      "at every prefix of every history whose mutating calls run with notifications on, any toggles in between). The EXTRACTED predicate c14_pred "
+                      "is evaluated on the implementation's recorded event stream",
+        "level_note": ENGINE_NOTE,
+        "explanation": "theorems c14_*; recording watcher; extracted c14_pred on implementation traces",
+        "assumptions": ["loads / set_model / set_adapter are not notified (by design, stated as c14_replica_excludes_load)",
+                        "every role definition has >= 2 placeholders (guaranteed when construction succeeded)"],
+    },
+    "C09": {
+        "coq": "Properties/C09.v",
+        "pinchecks": ENGINE_PINS,
+        "gen": "c09",
+        "level_text": "Coq theorems: AdapterSync (MemoryAdapter lines = in-memory policy, rule for rule, same order) holds after construction and is preserved by "
+                      "EVERY management call with auto-save on - accepted, duplicate, refused, failed, late role-link error, panic (c09_step, c09_history, "
+                      "c09_every_prefix); c09_reload_identity; c09_roundtrip for Memory/File/String at the parsed-line level; the text level (save then load "
+                      "= identity for csv-safe values) is Properties/C09text.v when present / C16. Correspondence: reload of the adapter into a scratch model "
+                      "after every call; save/load round trips with csv-safe values incl. commas",
+        "level_note": ENGINE_NOTE,
+        "explanation": "theorems c09_*; reload-equals-current after every call; save/load round trips over the three bundled adapters",
+        "assumptions": ["policy-type keys start with their section letter (p, p2, g, g2): save derives the section from the key's first character",
+                        "values are csv-safe for the text adapters (commas allowed via quoting)"],
+    },
+    "C08": {
+        "coq": "Properties/C08.v",
+        "pinchecks": ENGINE_PINS,
+        "gen": "c08",
+        "level_text": "Coq theorems: c08_eval_mono (negation-free matchers are monotone in the role relation), c08_has_link_mono (edge inclusion preserves "
+                      "has_link below the depth limit), c08_add_rule_keeps_grants / c08_remove_rule_keeps_denials, c08_add_link_keeps_grants / "
+                      "c08_remove_link_keeps_denials (allow-override), c08_add_deny_never_grants / c08_remove_deny_never_denies (every effect rule), "
+                      "for every request; each added hypothesis (shallow hierarchy, non-empty policy, graph-independent == operands) has a refutation witness",
+        "level_note": ENGINE_NOTE,
+        "explanation": "theorems c08_*; single additions/removals x request cross product; containment predicate on the implementation's decisions",
+        "assumptions": ["hierarchies below the depth limit (the property's own clause; c08_add_link_needs_shallow shows why)",
+                        "the policy is non-empty before/after (the empty-policy pseudo-rule is not monotone: c08_add_rule_needs_nonempty)"],
+    },
+    "C19": {
+        "coq": "Properties/C19.v",
+        "pinchecks": ENGINE_PINS,
+        "gen": "c19",
+        "level_text": "The full statement is REFUTED on reachable states of the faithful model (c19_full_statement_refuted; known finding D7: one role manager "
+                      "shared by all definitions). Proved: c19_independent_partial / _classified (outside the decidable class known_shared_rm_case - graph out of "
+                      "sync or a cross-talk role call during this evaluation - enforce equals the per-definition semantics enforce_indep), c19_store_independent "
+                      "(stored rules of one definition are never touched by calls on another). The check evaluates the extracted c19_pred and classifier: a "
+                      "deviation inside the class is the KNOWN-FINDING, any other is a violation",
+        "level_note": ENGINE_NOTE,
+        "explanation": "theorems c19_*; two-definition models over a shared name universe; extracted enforce_indep and classifier on implementation decisions",
+        "assumptions": ["hierarchies below the depth limit"],
+    },
+})
+
+PROPS.update({
+    "C04": {
+        "coq": "Properties/C04.v",
+        "pinchecks": ENGINE_PINS,
+        "gen": "c04",
+        "level_text": "Coq theorems over the engine: StoreInv (duplicate-free lists) for every reachable state of every history (c04_inv_run); each model-level "
+                      "operation equals a declarative ideal ordered set on the addressed list and touches nothing else (c04_model_ops); lifted to the management "
+                      "and RBAC API for every adapter response (c04_accept, c04_refuse, c04_rbac_*, c04_clear_*), with the exact characterisation of the late role-link "
+                      "error (c04_answer_ok_iff); flag = change (c04_flag_is_change), no-change = identity incl. all decisions (c04_false_is_identity, "
+                      "c04_false_keeps_decisions); every read view is the obvious function of the list (c04_view_*). The EXTRACTED ideal replay c04_check is "
+                      "evaluated on the implementation's results and store dumps after every call",
+        "level_note": ENGINE_NOTE,
+        "explanation": "theorems c04_*; exhaustive histories of length <= 2 + random up to 200 over Memory/Null/File adapters; extracted c04_check on implementation traces",
+        "assumptions": ["for section g with auto-build on, an Ok answer needs well-formed grouping rules / a graph in sync (c04_answer_fine, GSync); otherwise the call "
+                        "answers Err after the store changed (stated exactly, c04_answer_ok_iff)"],
+    },
+    "C05": {
+        "coq": "Properties/C05.v",
+        "pinchecks": ENGINE_PINS,
+        "gen": "c05",
+        "level_text": "Coq theorems: the invariant RoleSync (edge set of every domain = links of the stored grouping rules, handles and g-functions on the current "
+                      "manager) holds after construction and is preserved by EVERY operation with auto-build on - accepted, refused, failed, no-change, batch, "
+                      "filtered, RBAC helpers, clear, loads, set_role_manager, set_model, set_adapter (c05_step, c05_run_ops, c05_history_sync); under it no "
+                      "role-link error can occur (c05_no_link_error) and an explicit rebuild changes no role query and, below the depth limit, no decision "
+                      "(c05_rebuild_noop, c05_rebuild_ask, c05_history). Side conditions g_exact (D25) and defs_disjoint (D7) each have a refutation witness",
+        "level_note": ENGINE_NOTE,
+        "explanation": "theorems c05_*; grouping histories incl. reloads/clear/set_role_manager; all decisions and role queries before and after build_role_links at every step",
+        "assumptions": ["g_exact: grouping rules have exactly as many fields as their definition has placeholders (otherwise finding D25, witness c05_g_exact_refuted)",
+                        "defs_disjoint: two role definitions do not assert the same link (otherwise finding D7)",
+                        "hierarchies below the depth limit for the decision clause (c05_deep_rebuild_refuted)"],
+    },
+    "C07": {
+        "coq": "Properties/C07.v",
+        "pinchecks": ENGINE_PINS,
+        "gen": "c07",
+        "level_text": "Coq theorems: c07_view_preserved (a call confined to another domain leaves the observed domain's rules, grouping rules and graph untouched, "
+                      "whatever its outcome), c07_decided_by_view (two states agreeing on the view of d decide every request of d equally, all four effect rules, "
+                      "rules of other domains evaluate to indeterminate without error), role queries by view, c07_isolation over any history of confined calls",
+        "level_note": ENGINE_NOTE,
+        "explanation": "theorems c07_*; three domains sharing names; every confined call and random confined histories; observed-domain block before/after",
+        "assumptions": ["the observed domain is not the empty string (c07_empty_domain_not_isolated: the empty-policy path)", "stored policy rules have the definition's arity "
+                        "(c07_malformed_foreign_rule_breaks_tenant: a short foreign rule turns decisions into errors)"],
+    },
+    "C12": {
+        "coq": "Properties/C12.v",
+        "pinchecks": ENGINE_PINS,
+        "gen": "c12",
+        "level_text": "Coq theorems for File, Memory and String adapters: the filtered load equals filter_spec applied to the full load, for any lines and filters "
+                      "(c12_load_filtered_general), never panics (c12_load_filtered_total), the flag is exactly 'some line was left out' (c12_flag_meaning, "
+                      "c12_flag_iff_rule_missing), a full load resets it, a filtered enforcer's save_policy is refused with the store untouched (c12_save_guard), "
+                      "the constructor skips the load for a filtered adapter. The EXTRACTED c12_pred is evaluated on the implementation's dumps",
+        "level_note": ENGINE_NOTE,
+        "explanation": "theorems c12_*; 4 stores x all filters x 3 adapters; extracted c12_pred",
+        "assumptions": ["the flag also counts left-out lines of policy types the model does not know (c12_flag_needs_all_known)"],
+    },
+    "C13": {
+        "coq": "Properties/C13.v",
+        "pinchecks": ENGINE_PINS,
+        "gen": "c13",
+        "level_text": "Coq theorems in RBAC scope (plain and domain variant): implicit roles = transitive closure (fuel adequacy proved), implicit permissions = rules "
+                      "of the user or its implicit roles (exact list), enforce = Ok(membership among implicit permissions) (c13_enforce_iff_perm), roles/users "
+                      "inverse views, delete_user/delete_role/delete_permission remove exactly the matching rules and the deleted entity is powerless afterwards, "
+                      "implicit users; stable over any management history (c13_after_any_history)",
+        "level_note": ENGINE_NOTE,
+        "explanation": "theorems c13_*; random RBAC graphs with cycles/diamonds reached by histories; predicate computed from the implementation's own rule dumps",
+        "assumptions": ["hierarchies below the depth limit (c13_needs_shallow)", "names are non-empty (the empty string is a wildcard in the filtered APIs)"],
+    },
+})
+
 NOT_CLAIMED = {}
